@@ -28,8 +28,11 @@ ASSUMPTIONS = [
 
 def shards(tier):
     q = tier == "quick"
-    return [{"name": f"numpy{i}", "backend": "numpy", "examples": 330 if q else 3000, "big": i % 4 == 3}
-            for i in range(14 if q else 16)]
+    out = [{"name": f"numpy{i}", "backend": "numpy", "examples": 330 if q else 3000, "big": i % 4 == 3}
+           for i in range(14)]
+    if not q:
+        out += [{"name": f"fuzz{i}", "kind": "fuzz", "backend": "numpy", "runs": 3000, "big": i == 1} for i in range(2)]
+    return out
 
 
 @st.composite
